@@ -1,6 +1,7 @@
 package ethh
 
 import (
+	"strings"
 	"context"
 	"fmt"
 	"net"
@@ -98,7 +99,12 @@ func (d *Driver) Running() bool {
 
 // Poll fires the block poller's timer (one polling round).
 func (d *Driver) Poll() bool {
-	ws := vtime.Find("timer", "BlockPollConnector")
+	var ws []*vtime.Waiter
+	for _, w := range vtime.Find("timer", "BlockPollConnector") {
+		if !strings.HasPrefix(w.Label, "ctx:") { // request deadlines are not the poll timer
+			ws = append(ws, w)
+		}
+	}
 	if len(ws) == 0 {
 		return false
 	}
